@@ -178,6 +178,25 @@ def obs_impl(sc):
             x = sc.parent_for(x) if x in names else None
         if x is not None:
             problems.append('cycle through %s' % n)
+        # derived queries must agree with parent_for / children_for
+        chain = []
+        x = sc.parent_for(n)
+        while x is not None and x in names and len(chain) <= len(names):
+            chain.append(x)
+            x = sc.parent_for(x)
+        if list(sc.ancestors_for(n)) != chain:
+            problems.append('ancestors_for(%s) = %s, parent chain is %s' % (n, sc.ancestors_for(n), chain))
+        if sc.depth_for(n) != len(chain) + 1:
+            problems.append('depth_for(%s) = %s, parent chain has %d states' % (n, sc.depth_for(n), len(chain)))
+        below = set()
+        todo = list(kids)
+        while todo:
+            y = todo.pop()
+            if y not in below:
+                below.add(y)
+                todo += list(sc.children_for(y))
+        if set(sc.descendants_for(n)) != below or len(sc.descendants_for(n)) != len(below):
+            problems.append('descendants_for(%s) = %s, children closure is %s' % (n, sc.descendants_for(n), sorted(below)))
         ini = getattr(o, 'initial', None)
         mem = getattr(o, 'memory', None)
         if ini is not None and ini not in kids:
@@ -196,6 +215,13 @@ def obs_impl(sc):
         if (t.target is None) != t.internal:
             problems.append('internal flag inconsistent for %s' % t)
         trs.append((t.source, t.target or '', t.event or ''))
+    for n in names:
+        if sorted(map(id, sc.transitions_from(n))) != sorted(id(t) for t in sc.transitions if t.source == n):
+            problems.append('transitions_from(%s) disagrees with the transition list' % n)
+    if names:
+        want = sorted(l for l in names if not any(d in names for d in sc.descendants_for(l)))
+        if sorted(sc.leaf_for(names)) != want:
+            problems.append('leaf_for(all states) = %s, expected %s' % (sorted(sc.leaf_for(names)), want))
     return (tuple(sorted(sts)), tuple(sorted(trs))), problems
 
 
@@ -263,6 +289,7 @@ def build(chart, hist):
     for n, (f, v) in props.items():
         setattr(sc.state_for(n), f, v)
         ref.st[n][f] = v
+    obs_impl(sc)                # the initial chart is inspected too before it is edited
     for op in hist:
         exp = apply_ref(ref.clone(), op)
         try:
@@ -271,6 +298,10 @@ def build(chart, hist):
             pass
         if exp is None:
             apply_ref(ref, op)
+        try:
+            obs_impl(sc)        # a user inspects the statechart between two edits (exercises every query)
+        except Exception:
+            pass
     return sc, ref
 
 
@@ -279,7 +310,7 @@ def ops_for(ref):
     first = names[0] if names else 'new'
     ops = []
     for kind in ('B', 'C', 'HS'):
-        for name in ('new', first):
+        for name in ('new', first, 'a', 'p'):       # 'a' / 'p': names that may have been removed before
             for parent in names + ['zz', None]:
                 if kind == 'HS' and parent is None and not ref.root():
                     continue     # history state as root: C12's question, not in this alphabet
